@@ -6,8 +6,8 @@ from .. import pipeline as P
 PROP = "C10"
 LEVEL = "exploration"
 BACKENDS = [("bc", [0, 1, 2, 3]), ("jit", [0, 1, 2, 3])]
-COUNTS_QUICK = {"framealias": 40, "stridescan": 60, "shiftif": 80, "roam": 100, "uniform": 150, "macro": 60, "affine": 40, "pressure": 10}
-COUNTS_THOROUGH = {"framealias": 800, "stridescan": 1000, "shiftif": 1500, "roam": 2000, "uniform": 3000, "macro": 1500, "affine": 800, "pressure": 200}
+COUNTS_QUICK = {"ifedge": 30, "jmpsweep": 240, "framealias": 40, "stridescan": 60, "shiftif": 80, "roam": 100, "uniform": 150, "macro": 60, "affine": 40, "pressure": 10}
+COUNTS_THOROUGH = {"ifedge": 500, "jmpsweep": 2000, "framealias": 800, "stridescan": 1000, "shiftif": 1500, "roam": 2000, "uniform": 3000, "macro": 1500, "affine": 800, "pressure": 200}
 
 
 def unchecked_protocol(res, rng, driver, hv, n):
